@@ -130,7 +130,7 @@ pub fn c17(tier: Tier, seed: u64) -> i32 {
 pub fn c10(tier: Tier, seed: u64) -> i32 {
     use crate::monitors::c10::C10;
     let mut rep = Report::new("C10", tier, seed);
-    rep.rule = "every successful single swap of the history workload: (1) reference traversal - the initialized ticks of the pre-state (harness decoders, all arrays in the bank) lying between start and end price, in price order, must be exactly the initialized ticks the swap-loop hook saw crossed, each once, and pool liquidity must change by exactly their signed nets; (2) packaging equivalence on clones of the pre-state for every second swap: permuted slots, duplicated accounts, supplemental arrays (v2), static slots holding one array with the rest supplemental, arrays without initialized ticks deleted from the bank and only named, every array transcoded fixed<->dynamic by the harness encoder, one slot replaced by a non-PDA address, an array of another pool. A variant that still contains every array the swap needs must be byte-identical in pool, oracle, balances, events and abstract tick contents; any other variant may only fail; a foreign array must fail. distinct = (variant, outcome, direction) and (instruction, direction, #crossed, #arrays visited, shifted start)".into();
+    rep.rule = "every successful single swap of the history workload: (0) history level - an initialized tick is never crossed twice in the same direction without a crossing the other way in between (records dropped whenever a liquidity instruction or a two-hop may have touched the tick); (1) reference traversal - the initialized ticks of the pre-state (harness decoders, all arrays in the bank) lying between start and end price, in price order, must be exactly the initialized ticks the swap-loop hook saw crossed, each once, and pool liquidity must change by exactly their signed nets; (2) packaging equivalence on clones of the pre-state for every second swap: permuted slots, duplicated accounts, supplemental arrays (v2), static slots holding one array with the rest supplemental, arrays without initialized ticks deleted from the bank and only named, every array transcoded fixed<->dynamic by the harness encoder, one slot replaced by a non-PDA address, an array of another pool. A variant that still contains every array the swap needs must be byte-identical in pool, oracle, balances, events and abstract tick contents; any other variant may only fail; a foreign array must fail. distinct = (variant, outcome, direction) and (instruction, direction, #crossed, #arrays visited, shifted start)".into();
     rep.assumptions = vec![SVM_ASSUMPTION.into()];
     let per_shard = tier.pick(56, 1400);
     let acc = run_histories(
@@ -150,6 +150,7 @@ pub fn c10(tier: Tier, seed: u64) -> i32 {
     rep.floor("crossed_last_slot", 20);
     rep.floor("shifted_start_state", 50);
     rep.floor("foreign_array_probes", 300);
+    rep.floor("recrossings_checked", 300);
     rep.finish()
 }
 
